@@ -35,7 +35,7 @@ def main():
         timeout_ms = getattr(mod, "TIMEOUT_MS", {}).get(a.tier, 60000 if a.tier == "quick" else 300000)
         reports = framework.run_tasks(f"vf.props.{a.prop}", tasks, a.tier, timeout_ms, workers=a.workers)
         extra = mod.coverage_extra(reports) if hasattr(mod, "coverage_extra") else None
-        code = framework.finish(a.prop, a.tier, reports, t0, extra_cov=extra)
+        code = framework.finish(a.prop, a.tier, reports, t0, extra_cov=extra, mod=mod)
     except SystemExit:
         raise
     except BaseException as e:  # noqa: BLE001
